@@ -28,7 +28,7 @@ RULE = ("one process per (module, stream count): parsec_init(n, --mca mca_sched 
 LTQ_ASAN_STRESS = os.environ.get("C08_LTQ_ASAN_STRESS", "") == "1"
 # __parsec_reschedule (only caller: device_gpu.c, not compiled here) schedules onto the *next* stream; llp's single-writer shortcut
 # (es->th_id != 0) is unsound for that caller.  Off by default (the statement quantifies foreign submissions onto stream 0).
-NEXT_TARGET = os.environ.get("C08_NEXT_TARGET", "") == "1"
+NEXT_TARGET = os.environ.get("C08_NEXT_TARGET", "1") == "1"     # llp next-stream defect (C08-F1) repaired in /repo: target included by default
 
 
 def _build():
@@ -58,8 +58,8 @@ def run(tier, seed, res):
     res.rule = RULE
     res.assumptions = ["rings are in non-increasing priority order, as parsec_list_item_ring_push_sorted leaves them",
                        "a stream's own schedule/select calls come from one thread (the stream's); foreign submissions target stream 0 of the VP "
-                       "(__parsec_schedule_vp), as in this build's runtime; the next-stream target of __parsec_reschedule (GPU code only) is off "
-                       "unless C08_NEXT_TARGET=1",
+                       "(__parsec_schedule_vp), as in this build's runtime; the next-stream target of __parsec_reschedule (GPU code only) is "
+                       "generated too (C08_NEXT_TARGET=0 switches it off)",
                        "single virtual process (flat map); tasks are harness-allocated and never freed during a process",
                        "sequential consistency at atomic-operation granularity under dsched; real parallelism only in the stress part",
                        "ltq stress runs without ASan unless C08_LTQ_ASAN_STRESS=1 (known use-after-free read in parsec_hbbuffer_pop_best)"]
